@@ -14,21 +14,23 @@ Definition class_of (c : config) (i : N) : channel :=
   else if i <? n_main c + n_rp c + n_ping c then ChPing
   else ChSpeed.
 
-(* exact host name of any class; else <credentials>.<main host>; else an alternative SNI *)
+(* exact host name of any class; else a configured alternative SNI; else <credentials>.<main host> (the order of the statement:
+   a name the operator configured is not taken for credentials) *)
 Definition designated (c : config) (sni : list N) : option (channel * N * option (list N)) :=
   match index_of sni (all_hosts c) 0 with
   | Some i => Some (class_of c i, i, None)
   | None =>
-    match match split_dot sni with
-          | Some (a, b) => match index_of b (main_names c) 0 with
-                           | Some i => Some (i, a) | None => None end
-          | None => None
-          end with
-    | Some (i, a) => Some (ChTunnel, i, Some a)
-    | None => match alt_lookup sni (c_main c) 0 with
-              | Some i => Some (ChTunnel, i, None)
-              | None => None
-              end
+    match alt_lookup sni (c_main c) 0 with
+    | Some i => Some (ChTunnel, i, None)
+    | None =>
+      match match split_dot sni with
+            | Some (a, b) => match index_of b (main_names c) 0 with
+                             | Some i => Some (i, a) | None => None end
+            | None => None
+            end with
+      | Some (i, a) => Some (ChTunnel, i, Some a)
+      | None => None
+      end
     end
   end.
 
